@@ -151,6 +151,7 @@ class Sim(object):
 
         self.seed      = seed
         self.ch        = Choices(seed, trace)
+        self.slow      = dict()   # thread name prefix -> (prob, max dt)
         self.now       = t0
         self.t0        = t0
         self.threads   = list()
@@ -332,6 +333,15 @@ class Sim(object):
         that timers of other threads fire inside its critical sections'''
         if not self.in_sim_thread():
             return
+        for pfx, (sp_, smax) in self.slow.items():
+            # slow threads (fault kind `slow`): named threads which are
+            # descheduled more often and for longer than the others
+            if self.current.name.startswith(pfx) and self.ch.coin(sp_):
+                self.fault('slow')
+                dt = self.ch.uniform(0.0, smax, steps=12)
+                self.park(BLOCKED, pred=None, deadline=self.now + dt,
+                          what='slow')
+                return
         if self.stall_prob and self.current.group != 'driver' and \
                 self.ch.coin(self.stall_prob):
             self.fault('stall')
